@@ -1153,16 +1153,18 @@ func (h *harness) schemaNewStream(r *hx.Rand, sd *SchemaDesc, n int, st *snStats
 	for i := 0; i < n; i++ {
 		step := hx.Pick(r, steps[1:])
 		d := base.clone()
-		if !safeStep(step, r.Fork(), d) {
+		if !safeStep(step, r.Fork(), d) || !d.keysUnique() {
 			h.run.Count("schemanew:step-not-applicable:" + step.name)
 			continue
 		}
 		d.Mutation_ = step.name
 		if r.Chance(1, 5) {
-			// a second step on top
+			// a second step on top (on a copy: a step that does not apply must leave nothing behind)
 			s2 := hx.Pick(r, steps[1:])
-			if safeStep(s2, r.Fork(), d) {
-				d.Mutation_ += "+" + s2.name
+			d2 := d.clone()
+			if safeStep(s2, r.Fork(), d2) && d2.keysUnique() {
+				d2.Mutation_ = d.Mutation_ + "+" + s2.name
+				d = d2
 			}
 		}
 		h.runSchemaNew(d, st)
@@ -1241,4 +1243,17 @@ func (d *NDef) normalize() {
 		}
 	}
 	d.Directives = ds
+}
+
+// keysUnique: every type object of the description has its own key (a step applied twice must not
+// create two objects under one key: the builder and the export would then disagree).
+func (d *NDef) keysUnique() bool {
+	seen := map[string]bool{}
+	for _, t := range d.Types {
+		if seen[t.Key] {
+			return false
+		}
+		seen[t.Key] = true
+	}
+	return true
 }
